@@ -311,11 +311,16 @@ PROPS["C05"] = {
         {"id": "foreign",
          "quick": ["c05::c05_foreign_cbox", "c05::c05_foreign_cbox_without_drop_fn", "c05::c05_foreign_cvec_i0", "c05::c05_foreign_cvec_i1", "c05::c05_foreign_cvec_i2",
                    "c05::c05_foreign_cslicebox", "c05::c05_foreign_callback", "c05::c05_foreign_iterator",
-                   "c10::c10_foreign_functions_used", "c05::c05_negative_twin"],
+                   "c10::c10_foreign_functions_used",
+                   # a vector that starts empty still carries its creator's grow and release functions
+                   "c16::c16_cvec_t3_empty", "c05::c05_negative_twin"],
          "timeout": 1200},
         # a generated opaque object whose vtable was made by "another module" (mock entries): every call of the host-side
         # glue - borrowing and consuming - reaches exactly the entries captured in the object (shared with C07)
-        {"id": "foreign_vtable", "crate": "gen", "quick": ["c07::c07_caller_glue_holds_context_across_consuming_call"],
+        {"id": "foreign_vtable", "crate": "gen", "quick": ["c07::c07_caller_glue_holds_context_across_consuming_call",
+                                                          # the context (the loaded module) outlives the instance's destructor
+                                                          "c07::c07_instance_destroyed_before_context_released",
+                                                          "c07::c07_group_instance_destroyed_before_context_released"],
          "cbmc_args": LEAK, "timeout": 900},
         # two modules that each expand the same group definition must agree on its layout: the order of the vtable words
         # is a function of the trait names alone (4 mandatory + 2 optional traits; an order that depended on the expanding
@@ -474,7 +479,7 @@ PROPS["C07"] = {
     "crate": "gen",
     "groups": [
         {"id": "context",
-         "quick": ["c07::c07_owned_tree", "c07::c07_arc_context_tree", "c07::c07_opaque_overaligned_arc_context_tree", "c07::c07_group_consuming_call", "c07::c07_borrowed_child_moved_out_and_dropped", "c07::c07_consuming_call_keeps_context", "c07::c07_clone_cast_selfreturn",
+         "quick": ["c07::c07_owned_tree", "c07::c07_arc_context_tree", "c07::c07_opaque_overaligned_arc_context_tree", "c07::c07_group_consuming_call", "c07::c07_group_instance_destroyed_before_context_released", "c07::c07_borrowed_child_moved_out_and_dropped", "c07::c07_consuming_call_keeps_context", "c07::c07_clone_cast_selfreturn",
                    "c07::c07_caller_glue_holds_context_across_consuming_call", "c07::c07_consuming_call_returning_wrapped_result",
                    "c07::c07_failed_cast_and_int_result_child", "c07::c07_instance_destroyed_before_context_released",
                    "c07::c07_kf_borrowed_obj_ref", "c07::c07_kf_borrowed_obj_mut", "c07::c07_kf_borrowed_group_ref",
